@@ -104,10 +104,9 @@ fn verif_reassembler_skip_cursors() {
     core::mem::forget(r);
 }
 
-// NOT covered: Reassembler::write_reader itself, even for an EMPTY segment at or below the read
-// cursor on a buffer without slots: symbolic execution reached 5.6 GB without finishing in 14 min
-// (measured). The final-size rules are decided on Cursors::handle_reader_fin above, but a change in
-// write_reader that bypasses that call is not detected.
+// Reassembler::write_reader with its slot-list part encoded is out of reach: even for an EMPTY
+// segment on a buffer without slots symbolic execution did not finish in 20 min (measured twice).
+// verif_reassembler_write_stale_segment below therefore cuts write_reader_impl with a checking stub.
 
 // slot allocation for a segment that found no slot: the new slot contains the segment start, never
 // reaches below the read cursor, covers its whole aligned block — and is shortened ONLY to the
@@ -157,6 +156,58 @@ fn verif_reassembler_allocate_slot() {
     core::mem::forget(r);
 }
 
+// Cut for the harness below (Kani stub of the private Reassembler::write_reader_impl): the slot
+// list manipulation is out of reach, and for a segment that is completely stale (ends at or below
+// the read cursor) nothing is left to store once write_reader has trimmed it.  The stub CHECKS
+// that (a non-empty reader reaching it fails the harness) and stores nothing.
+fn stub_write_reader_impl<R>(_this: &mut Reassembler, reader: &mut R) -> Result<(), R::Error>
+where
+    R: Reader + ?Sized,
+{
+    assert!(reader.buffer_is_empty());
+    Ok(())
+}
+
+// write_reader (the real entry point of every incoming STREAM/CRYPTO segment) for a segment that
+// is entirely stale - a late retransmission of bytes the application has already consumed - with
+// or without FIN: the final-size rules of RFC 9000 4.5 are still applied, nothing else moves.
+#[cfg_attr(kani, kani::proof)]
+#[cfg_attr(kani, kani::unwind(6))]
+#[cfg_attr(kani, kani::stub(Reassembler::write_reader_impl, stub_write_reader_impl))]
+fn verif_reassembler_write_stale_segment() {
+    let before = any_cursors();
+    let mut r = Reassembler { slots: VecDeque::new(), cursors: before };
+    let off: u64 = kani::any();
+    let len: usize = kani::any();
+    kani::assume(len <= 4 && off <= MAX - 4);
+    let end = off + len as u64;
+    kani::assume(end <= before.start_offset);
+    let is_fin: bool = kani::any();
+    let data = [0u8; 4];
+    let res = if is_fin {
+        r.write_at_fin(VarInt::new(off).unwrap(), &data[..len])
+    } else {
+        r.write_at(VarInt::new(off).unwrap(), &data[..len])
+    };
+    let known = before.final_offset != UNKNOWN_FINAL_SIZE;
+    // final size below data already seen (end <= consumed <= max_recv), or a changed final size
+    let reject = is_fin && if known { end != before.final_offset } else { end < before.max_recv_offset };
+    if reject {
+        assert!(matches!(res, Err(Error::InvalidFin)));
+        assert!(r.cursors == before);
+        kani::cover!(end < before.start_offset && !known, "stale FIN below the read cursor rejected");
+        kani::cover!(known, "stale FIN that changes the final size rejected");
+    } else {
+        assert!(res.is_ok());
+        assert!(r.cursors.start_offset == before.start_offset);
+        assert!(r.cursors.max_recv_offset == before.max_recv_offset);
+        assert!(r.cursors.final_offset == if is_fin { end } else { before.final_offset });
+        kani::cover!(is_fin && !known, "FIN exactly at the read cursor of a fully consumed stream accepted");
+        kani::cover!(!is_fin && len > 0, "stale data ignored");
+    }
+    core::mem::forget(r);
+}
+
 // ---- generated by tools/fixup.py: native replay entry ----
 #[cfg(not(kani))]
 #[test]
@@ -165,5 +216,6 @@ fn verif_replay() {
         ("verif_cursors_handle_fin", verif_cursors_handle_fin),
         ("verif_reassembler_skip_cursors", verif_reassembler_skip_cursors),
         ("verif_reassembler_allocate_slot", verif_reassembler_allocate_slot),
+        ("verif_reassembler_write_stale_segment", verif_reassembler_write_stale_segment),
     ]);
 }
